@@ -273,6 +273,7 @@ def run(facts, rep, tier):
     fn_names = set()
     n_ok = 0
     for st in stores:
+        n_ok += 1
         b = st["body"]
         du = DefUse(b)
         if st["via"] == "calldest":
@@ -312,7 +313,6 @@ def run(facts, rep, tier):
                             "the country function is applied to a value that is not the one stored to Plane.icao",
                             span_loc(term.get("span"))))
             continue
-        n_ok += 1
         rep.oblige(True, ("reg-store", b.name))
         rep.sample({"rule": "R17.3", "store_in": b.name, "from": callee, "component": 1, "arg": "fn arg %d (also stored to Plane.icao)" % arg_root[1]})
     # the `new` aggregate must put a constant there
